@@ -57,13 +57,16 @@ def main():
                   "baseline_off_cmd": "cd /repo && /venv/bin/python -m pytest -ra -q -p no:cacheprovider --timeout=900 --continue-on-collection-errors",
                   "source_commits": [], "add_only": True},
         "engines": [{"name": "tlc", "path": "/opt/veriftools/tla/tla2tools.jar", "serves_properties": sorted(CHECKS),
-                     "kind_free_text": "explicit-state model checker for the TLA+ specification in /verif/spec; also the batch trace validator (spec/Trace*.tla)"}],
+                     "kind_free_text": "explicit-state model checker for the TLA+ specification in /verif/spec; also the batch trace validator (spec/Trace*.tla)"},
+                    {"name": "tlapm", "path": "/usr/local/bin/tlapm", "serves_properties": ["C05", "C09", "C12", "C16"],
+                     "kind_free_text": "TLA+ proof system: the proofs in spec/tlaps (no bound on sizes or strings) about StepRel / RepointRel / BulkMachine, bridged to the operational specification by refinement properties that TLC checks; an addition to the TLC-based decision, recorded as 'not run' if the tool is missing"},
+                    {"name": "apalache", "path": "/usr/local/bin/apalache-mc", "serves_properties": ["C05", "C09", "C12"],
+                     "kind_free_text": "symbolic model checker: inductive / one-step obligations in spec/apalache over unbounded strings and bounded sizes; an addition to the TLC-based decision, not relied upon (a timeout is recorded, not failed)"}],
         "checks": checks,
         "not_applicable": na,
         "notes": "exit codes: 0 held (KNOWN-FINDING lines possible), 1 VIOLATION, 2 machinery failure. VERIF_SEED and VERIF_TIER are honoured.",
     }
-    if not na:
-        del m["not_applicable"]
+    # all twenty properties are claimed: the list is kept, empty
     with open(os.path.join(VERIF, "MANIFEST.json"), "w") as f:
         json.dump(m, f, indent=1)
 
